@@ -31,7 +31,7 @@ BACKENDS = ("epoll", "epollcl", "poll", "select")
 C05_INVS = ["TypeOK", "InterestOK", "CountsOK", "PollArrayOK", "ChangelistOK"]
 
 
-def consts(backend, D, *, nfd=2, nev=3, masks=(1, 2, 3, 4, 5, 6, 7), ets=(0, 1), keeper=(), acts=("add", "del", "close", "wait"),
+def consts(backend, D, *, nfd=2, nev=3, masks=(1, 2, 3, 4, 5, 6, 7), ets=(0, 1), keeper=(), acts=("add", "del", "close", "wait", "reinit"),
            avoid=True, kinds=None):
     if backend == "select":
         masks = [m for m in masks if m < 4]
@@ -139,6 +139,8 @@ def trace_events(h, out, n):
             ev.append({"e": "del", "ev": s["e"]})
         elif a in ("close", "reopen"):
             ev.append({"e": a, "fd": s["fd"]})
+        elif a == "reinit":
+            ev.append({"e": "reinit"})
         elif a == "wait":
             ev.append({"e": "wait", "p": o["p"], "p2": o["p2"], "rep": [{"fd": r["fd"], "p": r["p"]} for r in o["rep"]],
                        "cb": [{"e": x["e"], "w": x["w"]} for x in o["cb"]]})
